@@ -284,7 +284,7 @@ def gen_syn_rs(syn):
         out.append("pub mod %s {" % t["name"].lower())
         out.append("    use quantities::prelude::*;")
         if t["derived"]:
-            for n in {t["derived"][0], t["derived"][2]}:
+            for n in sorted({t["derived"][0], t["derived"][2]}):
                 if n != "AmountT":
                     out.append("    use super::%s::%s;" % (n.lower(), n))
             out.append("    #[quantity(%s %s %s)]" % tuple(t["derived"]))
